@@ -751,3 +751,43 @@ Section FillingRename.
       destruct st1; reflexivity.
   Qed.
 End FillingRename.
+
+(* ------------------------------------------------------------------ *)
+(* to_stream: arrival order of add_item calls = ascending type id        *)
+(* ------------------------------------------------------------------ *)
+Lemma nat_cmp_eq a b : Nat.compare a b = Eq <-> a = b.
+Proof. apply Nat.compare_eq_iff. Qed.
+Lemma nat_cmp_antisym a b : Nat.compare a b = CompOpp (Nat.compare b a).
+Proof. apply Nat.compare_antisym. Qed.
+Lemma nat_cmp_trans a b c : Nat.compare a b = Lt -> Nat.compare b c = Lt -> Nat.compare a c = Lt.
+Proof. rewrite !Nat.compare_lt_iff. lia. Qed.
+
+Lemma filter_flat_map {A B} (f : B -> bool) (g : A -> list B) l :
+  filter f (flat_map g l) = flat_map (fun a => filter f (g a)) l.
+Proof. induction l as [|a l IH]; simpl; [reflexivity|]. rewrite filter_app, IH. reflexivity. Qed.
+
+Section ToStreamP.
+  Variable T : Type.
+  Variable wrap : omod -> list T -> list T.
+
+  (* the emitted stream is a function of the id -> entry MAP: the history of inserts is irrelevant *)
+  Lemma to_stream_history_irrelevant pre post (h h' : list (id_entry T)) :
+    Permutation h h' -> NoDup (map fst h) -> to_stream T wrap pre post h = to_stream T wrap pre post h'.
+  Proof.
+    intros HP ND. unfold to_stream, id_table_of.
+    rewrite (sm_of_list_perm nat Nat.compare nat_cmp_eq nat_cmp_antisym nat_cmp_trans _ h h' HP ND). reflexivity.
+  Qed.
+
+  (* within one OutputSpace key the arrival order is: error item, then each entry's items under that
+     key in ASCENDING TYPE-ID order, then the shared defaults *)
+  Lemma to_stream_arrival_order pre post (h : list (id_entry T)) (k : okey) :
+    let f := fun it : okey * list T => okeyeq k (fst it) in
+    filter f (to_stream_items T pre post (id_table_of T h)) =
+      filter f pre ++ flat_map (fun e => filter f (snd e)) (id_table_of T h) ++ filter f post
+    /\ StronglySorted (fun a b => Nat.compare (fst a) (fst b) = Lt) (id_table_of T h).
+  Proof.
+    split.
+    - unfold to_stream_items. rewrite !filter_app, filter_flat_map. reflexivity.
+    - apply (sm_of_list_sorted nat Nat.compare nat_cmp_antisym nat_cmp_trans).
+  Qed.
+End ToStreamP.
